@@ -56,6 +56,20 @@ def plain(v: Any) -> Any:
     return v
 
 
+def content_key(data: Any):
+    """Content identity of a data object including the Python type of the wrapped value (np.float64 vs float)."""
+    from semantiva.data_types import NoDataType
+    from semantiva.examples.test_utils import FloatDataCollection, FloatDataType
+
+    if isinstance(data, NoDataType):
+        return ("N",)
+    if isinstance(data, FloatDataCollection):
+        return ("C",) + tuple(content_key(x) for x in data)
+    if isinstance(data, FloatDataType):
+        return ("F", type(data.data).__name__, repr(data.data))
+    return ("O", type(data).__name__, repr(data))
+
+
 def close(a: Any, b: Any, rel: float = 1e-9) -> bool:
     if isinstance(a, bool) or isinstance(b, bool):
         return a == b
@@ -204,9 +218,18 @@ class NodeProbe:
         try:
             ctx = payload.context
             d = ctx.to_dict() if hasattr(ctx, "to_dict") else dict(ctx)
+            self._last_key = content_key(payload.data)
             return plain(d), plain(payload.data)
         except Exception:
+            self._last_key = None
             return None, None
+
+    def _ident(self, slf):
+        p = getattr(slf, "processor", None)
+        cls = type(p) if p is not None else None
+        if cls is None:
+            return None
+        return {"module": cls.__module__, "qualname": cls.__qualname__, "name": cls.__name__}
 
     def _start(self, code, offset):
         if code is not self._code:
@@ -216,7 +239,8 @@ class NodeProbe:
             return
         self.hits += 1
         c, d = self._snap(payload) if payload is not None else (None, None)
-        self.events.append(("enter", type(slf).__name__, type(getattr(slf, "processor", None)).__name__, c, d, id(slf)))
+        self.events.append(("enter", type(slf).__name__, type(getattr(slf, "processor", None)).__name__, c, d, id(slf),
+                            self._ident(slf), getattr(self, "_last_key", None)))
 
     def _ret(self, code, offset, retval):
         if code is not self._code:
@@ -225,7 +249,8 @@ class NodeProbe:
         if slf is None or isinstance(slf, self._pipeline_cls):
             return
         c, d = self._snap(retval) if retval is not None else (None, None)
-        self.events.append(("exit", type(slf).__name__, type(getattr(slf, "processor", None)).__name__, c, d, id(slf)))
+        self.events.append(("exit", type(slf).__name__, type(getattr(slf, "processor", None)).__name__, c, d, id(slf),
+                            None, getattr(self, "_last_key", None)))
 
     def _unwind(self, code, offset, exc):
         if code is not self._code:
@@ -234,7 +259,8 @@ class NodeProbe:
         if slf is None or isinstance(slf, self._pipeline_cls):
             return
         c, d = self._snap(payload) if payload is not None else (None, None)
-        self.events.append(("raise", type(slf).__name__, type(getattr(slf, "processor", None)).__name__, c, d, id(slf)))
+        self.events.append(("raise", type(slf).__name__, type(getattr(slf, "processor", None)).__name__, c, d, id(slf),
+                            None, getattr(self, "_last_key", None)))
 
     def __exit__(self, *a):
         mon = sys.monitoring
@@ -255,13 +281,15 @@ class NodeProbe:
         """[{node, processor, ctx_before, data_in, ctx_after, data_out, outcome}] in execution order."""
         recs, open_ = [], {}
         for ev in self.events:
-            kind, node, proc, c, d, ident = ev
+            kind, node, proc, c, d, ident, cls_ident, dkey = ev
             if kind == "enter":
                 open_[ident] = {"node": node, "processor": proc, "ctx_before": c, "data_in": d,
-                                "ctx_after": None, "data_out": None, "outcome": "open"}
+                                "ctx_after": None, "data_out": None, "outcome": "open",
+                                "processor_class": cls_ident, "data_in_key": dkey, "data_out_key": None}
                 recs.append(open_[ident])
             elif ident in open_:
                 r = open_.pop(ident)
                 r["ctx_after"], r["data_out"] = c, d
+                r["data_out_key"] = dkey
                 r["outcome"] = "returned" if kind == "exit" else "raised"
         return recs
